@@ -25,6 +25,20 @@ theorem seq_regions_in_reserve_sized_disjoint (off min max : Nat) (reqs : List (
 example : holderRegions (runSeq 1000 1000 1100 [(40, .fail), (48, .fresh 7000), (0, .fail), (-8, .fail), (50, .fail), (20, .fail), (5, .fail)])
     = [(1000, 40), (1040, 0), (1040, 50), (1090, 5)] := by decide
 
+/-- Clause "disjoint from every region returned before", across BOTH paths: in every sequential history all regions —
+    mappings and reserve regions alike — are pairwise disjoint, provided the kernel behaves as an allocator: the
+    mappings it grants (which goom never unmaps) are pairwise disjoint and do not cover the placeholder's text
+    `[min,max)`.  That hypothesis is the environment assumption of this property; the probe checks it on every mapping
+    it receives (sequentially and for concurrent callers of Acquire). -/
+theorem seq_all_regions_disjoint (off min max : Nat) (reqs : List (Int × Mmap))
+    (h0 : min ≤ off) (h1 : off ≤ max) (h2 : max < 9223372036854775808) (hl : ∀ r ∈ reqs, r.1 < 9223372036854775808)
+    (hk : (kernelAnswers reqs).Pairwise disj) (ho : ∀ c ∈ kernelAnswers reqs, c.1 + c.2 ≤ min ∨ max ≤ c.1) :
+    (allRegions (runSeq off min max reqs)).Pairwise disj :=
+  (seq_all_disjoint min max h2 reqs off h0 h1 hl hk ho).1
+
+example : allRegions (runSeq 1000 1000 1100 [(40, .fail), (48, .fresh 7000), (0, .fail), (-8, .fail), (50, .fail), (48, .fresh 9000), (5, .fail)])
+    = [(1000, 40), (7000, 48), (1040, 0), (1040, 50), (9000, 48), (1090, 5)] := by decide
+
 /-- Clause "for all request sizes", the negative half on its own: a negative length is refused — no region, the bump
     pointer does not move — and under every schedule a negative request of a concurrent requester ends in an error. -/
 theorem negative_length_is_refused (off min max : Nat) (r : Int) (hr : r < 0) :
@@ -172,7 +186,10 @@ theorem stub_fits_request (dx a b : BitVec 64) :
 /-- Clause "writable through the provided writer" — for every write, not only the first: whatever `Space` `Acquire`
     returns (mapping or reserve), any number of successive `Write`s through it goes through, and each leaves the region
     in the protection it had when it was handed out (mapping: RWX, never sealed; reserve: R-X restored by
-    memory.WriteTo, which re-opens it on the next call). -/
+    memory.WriteTo, which re-opens it on the next call).
+    The protection automaton `writeOnce` is a hand transcription of space.go:45 / mwrite_amd64.go:19, so this theorem is
+    only as good as that transcription: its tie to the code is the `c20.writes` lane (n successive real writes compared
+    with `writeN`) and the literal match of the switch in `Write` by tools/genstub. -/
 theorem write_repeatable (off min max : Nat) (len : Int) (mm : Mmap) (o : Nat) (sp : Space)
     (h : acquire mm off min max len = (o, some sp)) (n : Nat) :
     writeN sp.typ (initPerm sp.typ) n = some (initPerm sp.typ) := by
@@ -193,7 +210,9 @@ example : writeN typeMMap (initPerm typeMMap) 4 = some .rwx ∧ writeN typeHolde
 
 /-- Concurrent writers on the reserve path: neighbouring regions share a code page, and every writer runs
     lock / mprotect RWX / copy / mprotect R-X / unlock (memory.WriteTo).  For EVERY schedule of any number of writers no
-    copy ever hits a page that is not writable — because the protection is restored before the lock is released. -/
+    copy ever hits a page that is not writable — because the protection is restored before the lock is released.
+    (`wstep` is a hand-written lock model; the statement order of memory.WriteTo is compared with it by C11's skeleton
+    check, and the `c20.cwrite` lane runs real concurrent writers on shared pages.) -/
 theorem conc_writers_never_fault (n : Nat) (σ : List Nat) : (wrun (winit n) σ).faulted = false :=
   (winv_run σ (winv_init n)).nofault
 
